@@ -32,6 +32,54 @@ type vroot struct {
 	Idx  int
 }
 
+// freshFns: repository functions whose every result is storage created inside
+// the call (a map/slice/struct built from the operands' contents), so their
+// result aliases none of their operands. Computed once per program.
+var freshFns map[*ssa.Function]bool
+
+func computeFreshFns(p *Program) {
+	freshFns = map[*ssa.Function]bool{}
+	cand := map[*ssa.Function]bool{}
+	for _, f := range p.RepoFuncs() {
+		if len(f.Blocks) > 0 && f.Signature.Results().Len() >= 1 {
+			cand[f] = true
+		}
+	}
+	// optimistic fixpoint: assume fresh, remove when a return value may alias a parameter/global/free variable
+	for f := range cand {
+		freshFns[f] = true
+	}
+	for changed := true; changed; {
+		changed = false
+		for f := range cand {
+			if !freshFns[f] {
+				continue
+			}
+			ok := true
+			for _, b := range f.Blocks {
+				ret, isRet := b.Instrs[len(b.Instrs)-1].(*ssa.Return)
+				if !isRet {
+					continue
+				}
+				for _, rv := range ret.Results {
+					if !isRefLike(rv.Type()) {
+						continue
+					}
+					for _, r := range rootsOf(rv) {
+						if r.Kind != rLocal {
+							ok = false
+						}
+					}
+				}
+			}
+			if !ok {
+				freshFns[f] = false
+				changed = true
+			}
+		}
+	}
+}
+
 // rootsOf follows an address or reference value back to what it points into.
 func rootsOf(v ssa.Value) []vroot {
 	var out []vroot
@@ -129,6 +177,10 @@ func rootsOf(v ssa.Value) []vroot {
 					rec(cc.Args[0], d+1)
 					return
 				}
+				add(vroot{Kind: rLocal, V: x, At: x})
+				return
+			}
+			if sc := cc.StaticCallee(); sc != nil && freshFns != nil && freshFns[sc] {
 				add(vroot{Kind: rLocal, V: x, At: x})
 				return
 			}
@@ -304,6 +356,7 @@ func newOrderEngine(p *Program) *orderEngine {
 			}
 		}
 	}
+	computeFreshFns(p)
 	e.stackFld = map[string]bool{}
 	for _, f := range e.fns {
 		eachInstr(f, func(_ *ssa.BasicBlock, i ssa.Instruction) {
@@ -417,10 +470,18 @@ type rawEffect struct {
 	Why      string
 }
 
-func (e *orderEngine) rawEffects(i ssa.Instruction) []rawEffect {
+func (e *orderEngine) rawEffects(i ssa.Instruction, forSummary bool) []rawEffect {
 	var out []rawEffect
 	switch x := i.(type) {
 	case *ssa.Store:
+		if _, isCell := x.Addr.(*ssa.Alloc); isCell && forSummary {
+			// assignment to a local variable (or spill cell) of this function; what
+			// the variable holds is followed where it is read. Appends to a local
+			// slice variable are handled by the loop-carried analysis / sortedBeforeUse.
+			if appendCall(x.Val) == nil {
+				return nil
+			}
+		}
 		if ap := appendCall(x.Val); ap != nil {
 			if e.stackFld[lastField(x.Addr)] {
 				return nil // push on a push/pop stack
@@ -461,8 +522,8 @@ func (e *orderEngine) rawEffects(i ssa.Instruction) []rawEffect {
 				}
 				return out
 			}
-			if o.Pkg() != nil && (pureDepPkgs[o.Pkg().Path()] || isGetterName(o)) {
-				return nil
+			if o.Pkg() == nil || pureDepPkgs[o.Pkg().Path()] || isGetterName(o) {
+				return nil // universe (error.Error) or allow-listed pure package
 			}
 			if len(e.callees[x]) == 0 || !anyRepo(e.callees[x]) {
 				for _, a := range ops {
@@ -514,13 +575,22 @@ func (e *orderEngine) computeSummaries() {
 					switch r.Kind {
 					case rParam:
 						addEff(effect{Kind: kind, Root: r.Idx, Key: key, ValConst: valConst, Field: field, Why: why})
-					case rFree, rGlobal:
+					case rFree:
+						// captured variable k of a closure: Root = -(2+k)
+						idx := -1
+						for k, fv := range f.FreeVars {
+							if ssa.Value(fv) == r.V {
+								idx = -(2 + k)
+							}
+						}
+						addEff(effect{Kind: kind, Root: idx, Key: key, ValConst: valConst, Field: field, Why: why})
+					case rGlobal:
 						addEff(effect{Kind: kind, Root: -1, Key: key, ValConst: valConst, Field: field, Why: why})
 					}
 				}
 			}
 			eachInstr(f, func(_ *ssa.BasicBlock, i ssa.Instruction) {
-				for _, re := range e.rawEffects(i) {
+				for _, re := range e.rawEffects(i, true) {
 					lift(re.Kind, re.Target, re.KeyVal, -1, re.ValConst, re.Field, re.Why)
 				}
 				switch x := i.(type) {
@@ -536,10 +606,10 @@ func (e *orderEngine) computeSummaries() {
 							if len(why) > 160 {
 								why = why[:160]
 							}
-							if ef.Root < 0 {
-								if g.Parent() != nil {
-									continue // closure effects on captured state are lifted at MakeClosure
-								}
+							if ef.Root <= -2 {
+								continue // closure effects on captured variables are lifted where the closure is created
+							}
+							if ef.Root == -1 {
 								addEff(effect{Kind: ef.Kind, Root: -1, Key: -1, ValConst: ef.ValConst, Field: ef.Field, Why: why})
 								continue
 							}
@@ -565,12 +635,15 @@ func (e *orderEngine) computeSummaries() {
 						return
 					}
 					for _, ef := range gs.effects {
-						if ef.Root >= 0 {
+						switch {
+						case ef.Root >= 0:
 							continue
-						}
-						for _, b := range x.Bindings {
-							if isRefLike(b.Type()) || true {
-								lift(ef.Kind, b, nil, -1, ef.ValConst, ef.Field, "closure "+fnName(fn)+": "+ef.Why)
+						case ef.Root == -1:
+							addEff(effect{Kind: ef.Kind, Root: -1, Key: -1, ValConst: ef.ValConst, Field: ef.Field, Why: "closure " + fnName(fn) + ": " + ef.Why})
+						default:
+							k := -(ef.Root + 2)
+							if k < len(x.Bindings) {
+								lift(ef.Kind, x.Bindings[k], nil, -1, ef.ValConst, ef.Field, "closure "+fnName(fn)+": "+ef.Why)
 							}
 						}
 					}
@@ -800,7 +873,7 @@ func (e *orderEngine) classify(l *mapLoop) []sink {
 				}
 				continue
 			}
-			for _, re := range e.rawEffects(ins) {
+			for _, re := range e.rawEffects(ins, false) {
 				valDep := true
 				switch x := ins.(type) {
 				case *ssa.Store:
@@ -834,10 +907,10 @@ func (e *orderEngine) classify(l *mapLoop) []sink {
 				for _, id := range ids {
 					ef := gs.effects[id]
 					why := "via " + fnName(g) + ": " + ef.Why
-					if ef.Root < 0 {
-						if g.Parent() != nil {
-							continue // closure: its captured-state effects are attributed where it is created
-						}
+					if ef.Root <= -2 {
+						continue // closure: effects on captured variables are attributed where it is created
+					}
+					if ef.Root == -1 {
 						eval(ins, ef.Kind, nil, nil, ef.Key == -2, ef.ValConst, anyDep, ef.Field, why, false)
 						continue
 					}
